@@ -79,3 +79,8 @@ CHECKS['C11'] = dict(
     text='45 public mutators x up to 8 arguments rejected immediately / late / in a nested object x 3 prior states (all enumerated) and 1.5k cases after random accepted edits per quick run; 41 read-only (class, mutator) pairs enumerated. Snapshot of sheet, rules, properties, selectors, media, namespace mapping and its object identity must be equal after a DOMException; a valid follow-up must behave as on a fresh copy. Finite table exhaustive, state variation exploration.',
     note='Trusted: snapshot code; only calls that raise DOMException are in scope (accepted arguments are tallied); table of arguments is hand-written from the grammar.',
 )
+CHECKS['C13'] = dict(
+    technique='property-based testing (Hypothesis): metamorphic relations over value spellings, seven ways a property comes to exist, contexts and validation flags; differential against a structural reference for 60 CSS 2.1 property grammars; conjunction and annotation-only oracles',
+    text='5k (name, value) pairs and 3k declaration blocks per quick run (150k/80k thorough): verdict equal across 4 spellings, 7 origins, round trip, @font-face context and all validation flags; agreement with a hand-written CSS 2.1 reference (valid => valid; invalid => invalid for single-profile properties); unknown names never valid; block/rule/sheet validity = conjunction; validate on/off serialise identically. Exploration.',
+    note='Trusted: my CSS 2.1 keyword/type table; prose range restrictions, "+" numbers (F13-1) and system colours (F13-3, pinned by the suite) are outside the asserted region.',
+)
